@@ -112,7 +112,13 @@ contract(
                 "result[n] == " + _OFF + " + 1 + node_index(target_graph, n)))",
                 # the same copy facts addressed by template node instead of by position (what callers need)
                 "forall_int(lambda n: implies(has_node(target_graph, n), same_attr(source_graph, result[n], target_graph, n, 'bonding') and "
-                "same_attr(source_graph, result[n], target_graph, n, 'element') and same_attr(source_graph, result[n], target_graph, n, 'fragname')))"]),
+                "same_attr(source_graph, result[n], target_graph, n, 'element') and same_attr(source_graph, result[n], target_graph, n, 'fragname') and "
+                "same_attr(source_graph, result[n], target_graph, n, 'weight') and same_attr(source_graph, result[n], target_graph, n, 'single_h_frag') and "
+                "has_attr(source_graph, result[n], 'fragid')))",
+                # every node that was added is the copy of a template node (named explicitly: the (m - off - 1)-th one)
+                "forall_int(lambda m: implies(has_node(source_graph, m) and not old(has_node(source_graph, m)), "
+                "has_node(target_graph, nodes(target_graph)[m - " + _OFF + " - 1]) and result[nodes(target_graph)[m - " + _OFF + " - 1]] == m))",
+                ]),
     modifies=["source_graph"],
     loops={
         0: Loop(over='enumerate(target_graph.nodes(), start=offset + 1)',
